@@ -104,6 +104,31 @@ SmallItems == LET s == {Str(<<>>), Str(<<5>>), Str(<<128>>), Str(<<1, 2>>)}
                   l1 == {Lst(<<>>)} \cup {Lst(<<x>>) : x \in s} \cup {Lst(<<x, y>>) : x \in {Str(<<>>), Str(<<5>>)}, y \in s}
               IN s \cup l1 \cup {Lst(<<x>>) : x \in l1} \cup {Lst(<<Str(<<7>>), x>>) : x \in l1}
 
+(* values of the self-referential types, to depth 2-3 (the recursion is followed at least once) *)
+U8v(n) == UV(Fix8(<<n>>))
+L1 == LV(<<U8v(1), Z>>)
+L2 == LV(<<U8v(200), L1>>)
+L3 == LV(<<UV(Fix8(<<>>)), L2>>)
+T0 == LV(<<BV(<<1>>), LV(<<>>)>>)
+T1 == LV(<<BV(<<2, 3>>), LV(<<T0>>)>>)
+T2 == LV(<<BV(<<>>), LV(<<T0, T1>>)>>)
+A0 == LV(<<U8v(1), Z>>)
+B0 == LV(<<BV(<<7>>), LV(<<>>)>>)
+B1 == LV(<<BV(<<>>), LV(<<A0, A0>>)>>)
+A1 == LV(<<U8v(2), B1>>)
+B2 == LV(<<BV(<<200>>), LV(<<A1>>)>>)
+R0 == LV(<<U8v(1), LV(<<LV(<<>>)>>)>>)
+R1 == LV(<<U8v(2), LV(<<LV(<<R0>>)>>)>>)
+R2 == LV(<<U8v(0), LV(<<LV(<<R0, R1>>)>>)>>)
+RefVals(name) ==
+  CASE name = "RList" -> {L1, L2, L3}
+    [] name = "RTree" -> {T0, T1, T2}
+    [] name = "RA" -> {A0, A1}
+    [] name = "RB" -> {B0, B1, B2}
+    [] name = "RArr" -> {R0, R1, R2}
+RefDef(name) ==
+  CASE name = "RList" -> L1 [] name = "RTree" -> T0 [] name = "RA" -> A0 [] name = "RB" -> B0 [] name = "RArr" -> R0
+
 RECURSIVE Def(_), Few(_), Vals(_)
 (* one default value per type *)
 Def(T) ==
@@ -118,6 +143,7 @@ Def(T) ==
     [] T.t = "ptr" -> Def(T.of)
     [] T.t = "iface" -> BV(<<9>>)
     [] T.t = "raw" -> [k |-> "r", b |-> <<193, 128>>]
+    [] T.t = "ref" -> RefDef(T.name)
 (* a few representatives, used in nested positions *)
 Few(T) ==
   CASE T.t = "uint" -> {UV(Fix8(<<>>)), UV(Fix8(<<128>>))} \cup (IF T.w >= 16 THEN {UV(Fix8(<<1, 0>>))} ELSE {})
@@ -131,6 +157,7 @@ Few(T) ==
     [] T.t = "ptr" -> (IF T.nilok \/ T.of.t \in {"uint", "big", "bytes"} THEN {Z} ELSE {}) \cup {Def(T.of)}
     [] T.t = "iface" -> {BV(<<>>), LV(<<BV(<<1>>)>>)}
     [] T.t = "raw" -> {[k |-> "r", b |-> <<128>>], [k |-> "r", b |-> <<193, 128>>]}
+    [] T.t = "ref" -> {RefDef(T.name)}
 (* the boundary values of a type *)
 Vals(T) ==
   CASE T.t = "uint" -> {UV(Fix8(b)) : b \in {x \in UintBytes : Len(x) <= T.w \div 8}}
@@ -149,6 +176,7 @@ Vals(T) ==
     [] T.t = "ptr" -> (IF T.nilok \/ T.of.t \in {"uint", "big", "bytes"} THEN {Z} ELSE {}) \cup Vals(T.of)
     [] T.t = "iface" -> {Z} \cup {IfaceVal(x) : x \in SmallItems}
     [] T.t = "raw" -> {[k |-> "r", b |-> Enc(x)] : x \in SmallItems}
+    [] T.t = "ref" -> RefVals(T.name)
 
 (* encode sequences: a value whose encoding fails after output was produced (a negative
    integer behind an encodable field of a struct), directly followed by an ordinary value;
